@@ -18,8 +18,10 @@ Cwds == {"ctx", "parent", "elsewhere"}
 \* Every reference, whichever file contains it, is written relative to the context directory.
 Layouts == {"rr", "rs", "sr", "ss"}
 LayoutsOf(d) == IF d = 1 THEN {"rr"} ELSE IF d = 2 THEN {"rr", "sr"} ELSE Layouts
-Configs == {c \in [depth : Depths, layout : Layouts, shared : BOOLEAN, out : Outs, explicit : Explicit, dir : DirModes, cwd : Cwds] :
-              c.layout \in LayoutsOf(c.depth)}
+\* how a reference to a sub-workflow file is spelled: as the plain relative path, or with a leading "./" (the same file)
+Spellings == {"plain", "dot"}
+Configs == {c \in [depth : Depths, layout : Layouts, shared : BOOLEAN, out : Outs, explicit : Explicit, dir : DirModes, cwd : Cwds, spelling : Spellings] :
+              c.layout \in LayoutsOf(c.depth) /\ (c.depth = 1 /\ ~c.shared => c.spelling = "plain")}
 L2(c) == IF c.layout \in {"sr", "ss"} THEN "sub/l2.yaml" ELSE "l2.yaml"
 L3(c) == IF c.layout \in {"rs", "ss"} THEN "sub/l3.yaml" ELSE "l3.yaml"
 ErrorFlag(c) == IF c.explicit = "none" THEN c.out = "error" ELSE c.explicit = "flag_true"
